@@ -163,19 +163,33 @@ func TestVerifC06(t *testing.T) {
 	}
 	r.Bounds["type_term_depth"] = depth
 	r.Bounds["accessor_chain_length"] = chainLen
-	r.Extra["rule"] = "accessor chains of length <= 3 over {.y, .z, .*, [0], ['y']} on <root>.x in 34 contexts x roots {matrix, steps, needs, inputs, secrets, jobs} typed {x: T} for every type term T up to the depth bound x every single loosening (sub-term -> any, strict -> open object); oracle: an expression without diagnostics under the original environment has none under the loosened one; end-to-end: 4 literal-vs-dynamic definition pairs x consumer expressions, and every include list of 1-3 elements over 4 element forms with one known element made unknown x 8 consumers, every row list of 1-3 elements over 5 element forms likewise x 9 consumers (+ a typed position), 15 typed positions (timeouts, booleans, call-input defaults, runs-on) x value of known type made unknown, through Linter.Lint. class = message skeleton that disappears or stays; non-trivial = original environment reports something"
+	r.Extra["rule"] = "accessor chains of length <= 3 over {.y, .z, .*, [0], ['y']} on <root>.x in 34 contexts x roots {matrix, steps, needs, inputs, secrets, jobs} typed {x: T} for every type term T up to the depth bound x every single loosening (sub-term -> any, strict -> open object); oracle: an expression without diagnostics under the original environment has none under the loosened one; end-to-end: 4 literal-vs-dynamic definition pairs x consumer expressions, and every include list of 1-3 elements over 4 element forms with one known element made unknown x 8 consumers, every row list of 1-3 elements over 5 element forms likewise x 9 consumers (+ a typed position), 15 typed positions (timeouts, booleans, call-input defaults, runs-on) and 7 positions of a caller inside a repository (typed / untyped inputs and secret of a local reusable workflow, inputs of a local action) x value of known type made unknown, through Linter.Lint. class = message skeleton that disappears or stays; non-trivial = original environment reports something"
 	r.Extra["assumptions"] = []string{"environments type one property x of one context at a time", "message identity is compared modulo quoted names and type renderings"}
 
 	if raw := vReplayInput(); raw != nil {
 		var rp struct {
 			Expr, Root, Type, Loosened string
 			Src0, Src1                 string
+			Project, Erroneous         bool
 		}
 		jsonUnmarshal(raw, &rp)
 		if rp.Src0 != "" {
+			if rp.Project {
+				c06Lint = vProjectLint(t)
+				defer func() { c06Lint = nil }()
+			}
 			for k := 0; k < 2; k++ {
 				a, b := vLint(rp.Src0, nil), vLint(rp.Src1, nil)
+				if rp.Project {
+					a, b = c06Lint(rp.Src0), c06Lint(rp.Src1)
+				}
 				fmt.Printf("replay %d:\noriginal:\n%s\n%v\nloosened:\n%s\n%v\n", k, rp.Src0, vDiagStrings(a.Errs), rp.Src1, vDiagStrings(b.Errs))
+				if rp.Erroneous {
+					if msg := c06NewMessages(a, b); msg != "" {
+						r.Violation("e2e-type-error-at-erroneous-value:replay", msg, rp)
+					}
+					continue
+				}
 				c06E2ECompare(r, rp.Src0, rp.Src1, "replay")
 			}
 			return
@@ -480,6 +494,66 @@ func TestVerifC06(t *testing.T) {
 			}
 		}
 	}
+	// typed positions of a caller inside a repository: values given to the typed and untyped inputs of
+	// a local reusable workflow and to the inputs of a local action
+	{
+		c06Lint = vProjectLint(t)
+		call := func(with string) string {
+			return "on: push\njobs:\n  b:\n    uses: ./.github/workflows/callee.yml\n    with:\n" + with + "    secrets:\n      csec: x\n"
+		}
+		projTyped := map[string]string{
+			"call-with-number":  call("      cnum: §\n"),
+			"call-with-boolean": call("      cbool: §\n"),
+			"call-with-string":  call("      cstr: §\n"),
+			"call-with-untyped": call("      cany: §\n"),
+			"call-with-all":     call("      cstr: §\n      cnum: §\n      cbool: §\n      cany: §\n"),
+			"call-secret":       "on: push\njobs:\n  b:\n    uses: ./.github/workflows/callee.yml\n    secrets:\n      csec: §\n",
+			"local-action-with": "on: push\njobs:\n  a:\n    runs-on: ubuntu-latest\n    steps:\n      - uses: ./act\n        with:\n          in1: §\n          in2: §\n",
+		}
+		anyForms := []string{"${{ fromJSON(vars.X) }}", "${{ github.event.inputs.debug }}", "${{ github.event.number }}", "${{ vars.X && fromJSON(vars.X) || 10 }}", "${{ fromJSON(vars.X).a[0] }}", "${{ fromJSON(needs.b.outputs.nothing-known) }}"}
+		for _, name := range vSortedKeys(projTyped) {
+			for _, known := range []string{"${{ 10 }}", "${{ true }}", "${{ 'x' }}", "${{ github.run_attempt }}", "${{ null }}", "10", "x"} {
+				for _, u := range anyForms {
+					if strings.Contains(u, "needs.b") {
+						continue // the caller has no job to need; kept for the single-source positions
+					}
+					idx++
+					if !r.Mine(idx) {
+						continue
+					}
+					c06E2ECompare(r, strings.ReplaceAll(projTyped[name], "§", known), strings.ReplaceAll(projTyped[name], "§", u), "typed-position-value-unknown:"+name)
+				}
+			}
+		}
+		// a value that is one expression WITH an error of its own (its type is unknown): the declared
+		// type of the input it is given to adds nothing - same diagnostics as at the untyped input
+		for _, bad := range []string{"${{ needs.s.outputs.nope }}", "${{ needs.s.outputs.o.x }}", "${{ nosuchvar }}", "${{ github.nosuch }}", "${{ contains('a') }}", "${{ nosuchfn(1) }}", "${{ needs.s.outputs.o == }}"} {
+			for _, in := range []string{"cstr", "cnum", "cbool"} {
+				idx++
+				if !r.Mine(idx) {
+					continue
+				}
+				mk := func(name string) string {
+					return "on: push\njobs:\n  s:\n    runs-on: ubuntu-latest\n    outputs:\n      o: v\n    steps:\n      - run: echo\n  b:\n    needs: s\n    uses: ./.github/workflows/callee.yml\n    with:\n      " + name + ": " + bad + "\n    secrets:\n      csec: x\n"
+				}
+				src0, src1 := mk("cany"), mk(in)
+				a, b := c06Lint(src0), c06Lint(src1)
+				r.Evaluations++
+				r.Transitions += 2
+				r.Validated += 2
+				replay := map[string]any{"src0": src0, "src1": src1, "project": true, "erroneous": true}
+				if a.Panic != "" || b.Panic != "" || a.Err != nil || b.Err != nil {
+					r.Violation("failure", fmt.Sprintf("panic/err: %q %q %v %v", vTrunc(a.Panic, 100), vTrunc(b.Panic, 100), a.Err, b.Err), replay)
+					continue
+				}
+				if msg := c06NewMessages(a, b); msg != "" {
+					r.Violation("e2e-type-error-at-erroneous-value:"+in, fmt.Sprintf("a value that already has an expression error (its type is unknown) gets a further diagnostic when given to the typed input %s instead of the untyped one: %s\n%s\n%v", in, msg, src1, vDiagStrings(b.Errs)), replay)
+				}
+				r.Class("e2e erroneous value at typed input", true)
+			}
+		}
+		c06Lint = nil
+	}
 	// known action / unknown action; declared job outputs / reusable workflow call
 	outCons := []string{"steps.s.outputs.ref", "steps.s.outputs.nope", "steps.s.outputs.ref.x", "steps.s.outputs.*", "steps.s.conclusion", "steps.s.nope", "steps.s.outputs['commit']", "contains(steps.s.outputs.ref, 'a')"}
 	for _, c := range append([]string{}, outCons...) {
@@ -515,12 +589,33 @@ var c06PosRe = regexp.MustCompile(`^\d+:\d+ `)
 
 // c06E2ECompare: diagnostics of the loosened workflow (kind expression, at consumer lines) must be
 // a sub-multiset of the original's, compared by message skeleton.
+// c06NewMessages returns the first diagnostic message of b (expression kind) that a does not have.
+func c06NewMessages(a, b vLintResult) string {
+	have := map[string]bool{}
+	for _, d := range vDiags(a.Errs) {
+		have[d.Msg] = true
+	}
+	for _, d := range vDiags(b.Errs) {
+		if d.Kind == "expression" && !have[d.Msg] {
+			return d.Msg
+		}
+	}
+	return ""
+}
+
+// c06Lint, when set, lints the two sources as a file of the project seed's repository (local action
+// and local reusable workflow with typed inputs).
+var c06Lint func(src string) vLintResult
+
 func c06E2ECompare(r *vReport, src0, src1, class string) {
 	a, b := vLint(src0, nil), vLint(src1, nil)
+	if c06Lint != nil {
+		a, b = c06Lint(src0), c06Lint(src1)
+	}
 	r.Evaluations++
 	r.Transitions += 2
 	r.Validated += 2
-	replay := map[string]any{"src0": src0, "src1": src1}
+	replay := map[string]any{"src0": src0, "src1": src1, "project": c06Lint != nil}
 	if a.Panic != "" || b.Panic != "" || a.Err != nil || b.Err != nil {
 		r.Violation("failure", fmt.Sprintf("panic/err: %q %q %v %v", vTrunc(a.Panic, 100), vTrunc(b.Panic, 100), a.Err, b.Err), replay)
 		return
